@@ -13,7 +13,7 @@ RULE = ("TC28 / TC29 subtype 0 and 1 / TC31 / TC19 messages built from DO-260A/B
         "codes 5..22 x NIC supplement bits x version {None,0,1,2} for the look-ups. Oracle: the encoded values, None exactly for 'no data' "
         "codes, selected heading = (256*sign+N)*180/256 mod 360, is_emergency per emergency state, categories per the DO-260 TC maps, "
         "monotone bounds. non-trivial = sign bit set, subtype-0 frames, 'no data' codes, supplement-resolved categories"
-        ' Also: NIC supplements and the version passed as bool / numpy integers, one constant context per sweep, all non-zero emergency states, RCv only for GNSS-height type codes, the look-ups of a position message called after the operational status message of the same aircraft (any version / supplements) was decoded.')
+        ' Also: NIC supplements and the version passed as bool / numpy integers, one constant context per sweep, all non-zero emergency states, every state x subtype also with the Mode A codes 7500/7600/7700/0000/7777/1200/2000/7000, RCv only for GNSS-height type codes, the look-ups of a position message called after the operational status message of the same aircraft (any version / supplements) was decoded.')
 ASSUMPTIONS = ["every non-zero TC28 emergency state (incl. 6 'downed aircraft' and the reserved 7) counts as 'an emergency state other than none'",
                "the vertical containment radius RCv of nuc_p exists only for the GNSS-height type codes 20/21 (DO-260 NUCp table)",
                "layout tables in ref/do260.py written from DO-260A (TC29 subtype 0) and DO-260B (subtype 1, TC28, TC31)",
@@ -246,6 +246,12 @@ def enum_misc(ctx):
                 idx += 1
                 if ctx.mine(idx):
                     yield {"kind": kind, "val": val, "ctx_seed": ctx.rng("m", kind, val, j).getrandbits(48)}
+    # TC28: every state x subtype also with the Mode A codes that have a meaning of their own (7500 / 7600 / 7700 and a few ordinary ones)
+    for val in range(64):
+        for sq in ("7500", "7600", "7700", "0000", "7777", "1200", "2000", "7000"):
+            idx += 1
+            if ctx.mine(idx):
+                yield {"kind": "tc28", "val": val, "squawk": sq, "ctx_seed": ctx.rng("m28", val, sq).getrandbits(48)}
 
 
 def chk_misc(c, note):
@@ -253,9 +259,17 @@ def chk_misc(c, note):
     rng = random.Random(c["ctx_seed"])
     v = c["val"]
     if c["kind"] == "tc28":
-        me, f = L.pack(L.TC28, {"tc": 28, "subtype": v & 7, "state": v >> 3}, rng)
+        fixed28 = {"tc": 28, "subtype": v & 7, "state": v >> 3}
+        if c.get("squawk"):
+            from ref import gillham
+            fixed28["idcode"] = gillham.squawk_encode(*[int(ch) for ch in c["squawk"]])
+        me, f = L.pack(L.TC28, fixed28, rng)
         msg = mk(me, rng)
         st, sub = f["state"], f["subtype"]
+        if c.get("squawk") and sub == 1:
+            r = call(A.emergency_squawk, msg)
+            if r != ("ok", c["squawk"]):
+                return "emergency_squawk(%s) = %r, encoded Mode A code %s" % (msg, r, c["squawk"])
         r = call(A.emergency_state, msg)
         if sub != 2 and r != ("ok", st):
             return "emergency_state(%s) = %r, encoded state %d (subtype %d)" % (msg, r, st, sub)
